@@ -85,6 +85,11 @@ type ReqSpec struct {
 	CT string `json:"content_type,omitempty"`
 	// Streamed: the json body arrives chunked on a server that streams request bodies (the request carries a body stream, no length)
 	Streamed bool `json:"streamed,omitempty"`
+	// PreRead: something (a middleware) has called Request.Body() on the streamed request before Bind
+	PreRead bool `json:"pre_read,omitempty"`
+	// Recycled: the request is parsed into a Request object that carried another request (with User-Agent, Content-Type,
+	// cookies, a body) and was Reset, as the server's context pool does on every connection
+	Recycled bool `json:"recycled,omitempty"`
 	Values map[string]map[string][]string `json:"values"` // field -> source -> texts
 }
 
@@ -193,6 +198,7 @@ var typeCounter int
 func genFields(t *rapid.T) []FieldSpec {
 	n := rapid.IntRange(1, 6).Draw(t, "nFields")
 	var fs []FieldSpec
+	uaUsed := false
 	for i := 0; i < n; i++ {
 		k := rapid.SampledFrom(scalarKinds).Draw(t, "kind")
 		// field names differ between types at the same position, tag literals may coincide (see buildType)
@@ -216,6 +222,9 @@ func genFields(t *rapid.T) []FieldSpec {
 					key = fmt.Sprintf("X-H-F%d", i)
 					if rapid.IntRange(0, 2).Draw(t, "headerTagLowerCase") == 0 {
 						key = fmt.Sprintf("x-h-f%d", i) // header names are case-insensitive
+					}
+					if !uaUsed && rapid.IntRange(0, 3).Draw(t, "headerTagUserAgent") == 0 {
+						key, uaUsed = "User-Agent", true // a header hertz keeps in a field of its own
 					}
 				}
 				if s != "header" && s != "cookie" && rapid.IntRange(0, 7).Draw(t, "emptyTagName") == 0 {
@@ -298,7 +307,17 @@ func genReq(t *rapid.T, fs []FieldSpec, allowInvalid bool) (ReqSpec, bool) {
 	if r.Body == "json" {
 		r.CT = rapid.SampledFrom([]string{"", "", "", "Application/JSON", "application/json; charset=utf-8", "application/JSON;charset=UTF-8"}).Draw(t, "contentTypeSpelling")
 		r.Streamed = rapid.IntRange(0, 3).Draw(t, "streamedBody") == 0
+		if r.Streamed {
+			r.PreRead = rapid.IntRange(0, 2).Draw(t, "bodyReadBeforeBind") == 0
+		}
 	}
+	if r.Body == "form" {
+		r.CT = rapid.SampledFrom([]string{"", "", "", "Application/X-WWW-Form-Urlencoded", "application/x-www-form-urlencoded; charset=UTF-8", "APPLICATION/X-WWW-FORM-URLENCODED"}).Draw(t, "contentTypeSpelling")
+	}
+	if r.Body == "multipart" {
+		r.CT = rapid.SampledFrom([]string{"", "", "", "Multipart/Form-Data; boundary=BOUND", "multipart/form-data; Boundary=BOUND", "multipart/form-data; charset=utf-8; boundary=BOUND"}).Draw(t, "contentTypeSpelling")
+	}
+	r.Recycled = rapid.IntRange(0, 2).Draw(t, "recycledRequest") == 0
 	invalid := false
 	for i := range fs {
 		f := &fs[i]
@@ -325,6 +344,8 @@ func genReq(t *rapid.T, fs []FieldSpec, allowInvalid bool) (ReqSpec, bool) {
 				if allowInvalid && s != "json" && f.Shape != "slice" && f.kind != reflect.String && rapid.IntRange(0, 11).Draw(t, "invalid") == 0 {
 					texts = append(texts, invalidText(t, f.kind))
 					invalid = true
+				} else if f.kind == reflect.String && f.Default == "" && (s == "form" || s == "query" || s == "json") && rapid.IntRange(0, 5).Draw(t, "emptyText") == 0 {
+					texts = append(texts, "") // present with an empty value ("k=", an empty multipart part, "k":"")
 				} else {
 					texts = append(texts, validText(t, f.kind))
 				}
@@ -403,6 +424,9 @@ func encode(fs []FieldSpec, r ReqSpec) ([]byte, param.Params) {
 	switch r.Body {
 	case "form":
 		body, ct = strings.Join(form, "&"), "application/x-www-form-urlencoded"
+		if r.CT != "" {
+			ct = r.CT
+		}
 	case "json":
 		body, ct = "{"+strings.Join(jsonParts, ",")+"}", "application/json"
 		if r.CT != "" {
@@ -410,6 +434,9 @@ func encode(fs []FieldSpec, r ReqSpec) ([]byte, param.Params) {
 		}
 	case "multipart":
 		ct = "multipart/form-data; boundary=BOUND"
+		if r.CT != "" {
+			ct = r.CT
+		}
 		for _, p := range mparts {
 			body += "--BOUND\r\nContent-Disposition: form-data; name=\"" + p.k + "\"\r\n\r\n" + p.v + "\r\n"
 		}
@@ -502,8 +529,17 @@ func reference(c *genCase) (reflect.Value, bool) {
 	return out, false
 }
 
+// what the recycled Request object carried before
+const dirtyRequest = "POST /earlier?q_f0=9&F0=9 HTTP/1.1\r\nHost: earlier\r\nUser-Agent: earlier-agent\r\nCookie: c_f0=9\r\nX-H-F0: 9\r\nContent-Type: application/x-www-form-urlencoded\r\nContent-Length: 8\r\n\r\nfo_f0=77"
+
 func bindOnce(c *genCase, wire []byte, params param.Params, validate bool) (reflect.Value, error, string) {
 	var r protocol.Request
+	if c.Req.Recycled {
+		if err := req.Read(&r, mock.NewZeroCopyReader(dirtyRequest)); err != nil {
+			return reflect.Value{}, nil, "harness: the earlier request does not parse: " + err.Error()
+		}
+		r.Reset()
+	}
 	if c.Req.Body == "json" && c.Req.Streamed {
 		zr := mock.NewZeroCopyReader(string(wire))
 		if err := req.ReadHeader(&r.Header, zr); err != nil {
@@ -514,6 +550,9 @@ func bindOnce(c *genCase, wire []byte, params param.Params, validate bool) (refl
 		}
 	} else if err := req.Read(&r, mock.NewZeroCopyReader(string(wire))); err != nil {
 		return reflect.Value{}, nil, "harness: request does not parse: " + err.Error()
+	}
+	if c.Req.PreRead {
+		r.Body()
 	}
 	obj := reflect.New(c.typ)
 	var err error
@@ -593,6 +632,15 @@ func checkCase(c *genCase) string {
 
 func classify(c *genCase) (bool, []string) {
 	cls := []string{"body-" + c.Req.Body}
+	if c.Req.Recycled {
+		cls = append(cls, "recycled-request")
+	}
+	if c.Req.PreRead {
+		cls = append(cls, "body-read-before-bind")
+	}
+	if c.Req.CT != "" {
+		cls = append(cls, "content-type-spelling")
+	}
 	nt := false
 	for i := range c.Fields {
 		f := &c.Fields[i]
